@@ -19,6 +19,7 @@ pub mod codec;
 pub mod cursor;
 pub mod pack;
 pub mod arith;
+pub mod coll;
 
 // ------------------------------------------------------------------ PRNG (splitmix64)
 #[derive(Clone)]
